@@ -21,6 +21,12 @@ import time
 VERIF = os.path.dirname(os.path.dirname(os.path.abspath(__file__)))
 REPO = os.environ.get("VERIF_REPO", "/repo")
 SEED = int(os.environ.get("VERIF_SEED", "1") or "1")
+
+
+def seeds(tier, n_thorough):
+    """Seeds of the random parts: one round in the quick tier, n rounds (distinct seeds) in the thorough tier."""
+    n = 1 if tier == "quick" else int(os.environ.get("VERIF_ROUNDS", n_thorough))
+    return [SEED + 7919 * k for k in range(n)]
 JOBS = int(os.environ.get("VERIF_JOBS", "0") or "0") or (os.cpu_count() or 4)
 TLA_JAR = "/opt/veriftools/tla/tla2tools.jar"
 TLA_CM = "/opt/veriftools/tla/CommunityModules-deps.jar"
